@@ -24,7 +24,7 @@ fn main() {
     }
     let args = Args::parse();
     explorer::quiet_panics();
-    let code = match args.property.as_str() {
+    let code = explorer::guard_main(&args.property, || match args.property.as_str() {
         "C19" => c19::run(Report::new(&args, "model_checking")),
         "C20" => c20::run(Report::new(&args, "fault_enumeration")),
         "C21" => c21::run(Report::new(&args, "model_checking")),
@@ -33,6 +33,6 @@ fn main() {
             eprintln!("vh-sync: unknown property {other}");
             2
         }
-    };
+    });
     std::process::exit(code);
 }
